@@ -12,7 +12,7 @@ for d in /verif/seeded/C*/$glob; do
   how=verus
   res=$(SEED_ARGS="--no-kani" /verif/seedrun.sh $d/patch.diff $p 2>&1 | grep -vE "^WARNING")
   rc=$(echo "$res" | grep -oE "rc=[0-9]+" | tail -1)
-  if [ "$rc" = "rc=0" ] || [ "$p" = "C16" ]; then
+  if [ "$rc" != "rc=1" ] || [ "$p" = "C16" ]; then
     how=verus+kani+native
     res=$(SEED_ARGS="" /verif/seedrun.sh $d/patch.diff $p 2>&1 | grep -vE "^WARNING")
     rc=$(echo "$res" | grep -oE "rc=[0-9]+" | tail -1)
